@@ -153,6 +153,8 @@ type CallRec struct {
 	Ret  Val
 	Sig  *types.Signature
 	Params []*types.Var
+	Cond *Term // nil = unconditional; set when paths were merged at a join
+	St   *State // state in which executor-level argument values can be converted to terms
 }
 
 func NewState() *State {
